@@ -192,7 +192,11 @@ def apply_op(store, tok):
         if k == "an":
             G.add_node(int(f[2]), **p_attr(f[3]))
         elif k == "ans":
-            G.add_nodes_from(p_nats(f[2]), **p_attr(f[3]))
+            ns = p_nats(f[2])
+            if not p_attr(f[3]) and G.edge_types and sum(ns) % 3 == 0:
+                G.update(nodes=ns)              # the same addition through update()
+            else:
+                G.add_nodes_from(ns, **p_attr(f[3]))
         elif k == "rn":
             G.remove_node(int(f[2]))
         elif k == "rns":
@@ -209,7 +213,10 @@ def apply_op(store, tok):
             es = p_pairs(f[2])
             if sum(a + b for a, b in es) % 2 == 0:     # same call with 3-tuples (u, v, {})
                 es = [(a, b, {}) for a, b in es]
-            G.add_edges_from(es, p_et(f[3]), **p_attr(f[4]))
+            if not p_attr(f[4]) and (len(es) + sum(e[0] for e in es)) % 3 == 1:
+                G.update(edges=es, edge_type=p_et(f[3]))     # the same addition through update()
+            else:
+                G.add_edges_from(es, p_et(f[3]), **p_attr(f[4]))
         elif k == "re":
             G.remove_edge(int(f[2]), int(f[3]), p_et(f[4]))
         elif k == "res":
@@ -223,7 +230,10 @@ def apply_op(store, tok):
             gr = nx.DiGraph() if f[3] == "d" else nx.Graph()
             gr.add_nodes_from(p_nats(f[4]))
             gr.add_edges_from(p_pairs(f[5]))
-            G.add_edge_type(gr, NAMES[int(f[2])])
+            if (len(f[4]) + len(f[5])) % 2 == 1:
+                G.add_edge_types_from([gr], [NAMES[int(f[2])]])      # the bulk form with one member
+            else:
+                G.add_edge_type(gr, NAMES[int(f[2])])
         elif k == "ret":
             G.remove_edge_type(NAMES[int(f[2])])
         elif k == "ga":
